@@ -7,8 +7,11 @@ TV      one pipeline per shard, two trace-validation passes around the harness:
           sig0 record   seeded random messages (all section shapes, Compress on/off, ARCOUNT 0..3 and 255/256/257,
                         37 octets .. ~8 kB, four signer names; windows: wide, tight, expired, not yet valid and three
                         INVERTED ones (inception > expiration: both past, both future, around now; >= 1 h margins))
-                        x algorithms -> real SIG.Sign.  Every run starts with six messages of 254, 255, 256, 257, 511,
-                        512 additional records and a window that holds (quick: first algorithm only)
+                        x algorithms -> real SIG.Sign.  RR types include SIG, RRSIG and KEY records carried as data.
+                        Every run starts with six messages of 254, 255, 256, 257, 511, 512 additional records and a
+                        window that holds (quick: first algorithm only), a ~3 kB and a ~20 kB message signed with ALL SIX
+                        algorithms, and a message that already carries SIG/RRSIG/KEY records in answer and additional,
+                        the last additional record being a SIG(0)-shaped SIG (as after signing twice)
           Trace_Sig0    pass 1: layout / ARCOUNT of each result; Sign must succeed; emits the signed octets, the
                         specified result with a placeholder signature and the tamper regions
           sig0 finish   (1) crypto/rsa|ecdsa|ed25519 verify the REAL signature over the SPEC's octets; (2) a second
@@ -96,7 +99,7 @@ def run(ctx):
         "the signature primitives and hash functions are Go's standard library, applied to the octets the specification fixes",
         "the SIG validity window is compared as plain unsigned 32-bit numbers (all windows lie within an hour of the current time, far from 2106)",
         "every timing assertion keeps at least 90 s between the wall clock and a window edge; a pipeline slower than 600 s is an infrastructure failure",
-        "quick tier: messages longer than 700 octets are bit-flipped with a stride (header, first octets and the last 90 octets of every region always); thorough flips every bit up to 1200 octets and strides beyond",
+        "quick tier: messages longer than 700 octets are bit-flipped with a stride of at most 37 octets over the whole message (header, region boundaries and the last 90 octets of every region always); thorough flips every bit up to 1200 octets and strides (<= 37) beyond; messages over 2500 octets are truncated at every 37th length, around the SIG RR header and at the last 200",
         "bit flips in the SIG RR's own owner/type/class/TTL/RDLENGTH are only required not to panic (AMBIG: neither message nor SIG RDATA)",
         "whether the signer name keeps its case in the SIG RDATA is AMBIG: both spellings are admitted; a compressed signer name is not refused",
         "messages whose signed form would exceed 65535 octets are outside the universe",
